@@ -294,9 +294,11 @@ class SymSeq(Model):
         if reg is not None and fn in getattr(reg, "generic_loops", ()):
             # independent-iterations rule: the body is executed once for an arbitrary index; sound when the body writes
             # only to a write-only accumulator (a recording model) -- the contract that enables this states that frame
-            carried = loop_carried_names(node, getattr(reg, "generic_store_ok", ()))
+            carried = loop_carried_names(node, getattr(reg, "generic_store_ok", ()), getattr(reg, "distinct_iterables", ()))
             if carried:
                 raise Unsupported("independent-iterations rule does not apply: the loop body carries %s from one iteration to the next" % sorted(carried))
+            if not self.tail and not I.P.branch(SBool(I.P.z(self.core_len) > 0)):
+                return  # the empty sequence: no iteration at all (what follows the loop is explored for this case too)
             j = self.fresh_index(I, "j")
             I.P.ghost.setdefault("generic_indices", []).append(j)
             I.assign_target(node.target, self.at(I, j), fr)
@@ -310,7 +312,7 @@ def no_heap_mutation_in_summary(I, what):
         raise Unsupported("the body of a summarised loop mutates %s (needs a loop contract)" % what)
 
 
-def loop_carried_names(loop, store_ok=()):
+def loop_carried_names(loop, store_ok=(), distinct_calls=()):
     """Names assigned in the loop body that may be read before they are (definitely) assigned in the same iteration, plus
     attribute/subscript stores: such a body is not a set of independent iterations."""
     assigned_anywhere = set()
@@ -319,7 +321,7 @@ def loop_carried_names(loop, store_ok=()):
             assigned_anywhere.add(n.id)
     targets = {n.id for n in ast.walk(loop.target) if isinstance(n, ast.Name)}
     carried = set()
-    cells = per_iteration_cells(loop, assigned_anywhere)
+    cells = per_iteration_cells(loop, assigned_anywhere, distinct_calls)
 
     def reads(expr, definite):
         for n in ast.walk(expr):
@@ -378,13 +380,16 @@ def loop_carried_names(loop, store_ok=()):
     return carried
 
 
-def per_iteration_cells(loop, assigned_in_body):
+def per_iteration_cells(loop, assigned_in_body, distinct_calls=()):
     """Sources of expressions X such that, in `for i in range(...)`, every occurrence of X in the body is exactly `X[i]`
     and X does not depend on i or on anything assigned in the body: iteration i reads and writes cell i of X only, and the
     indices of a range are pairwise distinct, so stores to X[i] carry nothing from one iteration to another.  (Aliasing
     between X and another object read in the body is outside this static rule; the harness models are distinct objects and
     log the cells they are asked for.)"""
-    if not (isinstance(loop.target, ast.Name) and isinstance(loop.iter, ast.Call) and isinstance(loop.iter.func, ast.Name) and loop.iter.func.id == "range"):
+    is_range = isinstance(loop.iter, ast.Call) and isinstance(loop.iter.func, ast.Name) and loop.iter.func.id == "range"
+    # a harness may declare library calls whose results are pairwise distinct (e.g. PyDiGraph.node_indices())
+    is_distinct = isinstance(loop.iter, ast.Call) and isinstance(loop.iter.func, ast.Attribute) and loop.iter.func.attr in distinct_calls
+    if not (isinstance(loop.target, ast.Name) and (is_range or is_distinct)):
         return set()
     t = loop.target.id
     body = ast.Module(body=loop.body, type_ignores=[])
@@ -654,6 +659,15 @@ def py_enumerate(I, xs, start=0):
         return SymSeq("enumerate(%s)" % xs.key, xs.core_len, lambda i: (_num_or_int(I.to_num(i) + start), xs.core_at(I, i)),
                       tail=[(_num_or_int(xs.core_len + k + start), v) for k, v in enumerate(xs.tail)])
     return [(k + start, v) for k, v in enumerate(I.iterate(xs))]
+
+
+def py_reversed(I, x):
+    if isinstance(x, SymSeq):
+        if x.tail:
+            raise Unsupported("reversed() of a symbolic sequence with appended elements")
+        n = x.core_len
+        return SymSeq("reversed(%s)" % x.key, n, lambda i: x.core_at(I, n - 1 - I.to_num(i)))
+    return list(reversed(I.iterate(x)))
 
 
 def py_zip(I, *xs):
@@ -993,7 +1007,7 @@ BUILTINS = {n: PyBuiltin(n, f) for n, f in {
     "round": py_round, "hash": py_hash, "print": py_print, "sorted": py_sorted, "any": py_any, "all": py_all,
     "tuple": lambda I, x=(): tuple(I.iterate(x)), "dict": lambda I, x=None, **k: dict(x or {}, **k),
     "set": lambda I, x=(): _mkset(I, x, frozen=False), "frozenset": lambda I, x=(): _mkset(I, x),
-    "str": lambda I, x="": x if isinstance(x, str) else "<str>", "reversed": lambda I, x: list(reversed(I.iterate(x))),
+    "str": lambda I, x="": x if isinstance(x, str) else "<str>", "reversed": lambda I, x: py_reversed(I, x),
     "map": lambda I, f, *xs: (xs[0].map(I, "map(%s)" % xs[0].key, lambda v: I.call(f, [v], {})) if len(xs) == 1 and isinstance(xs[0], SymSeq)
                               else [I.call(f, list(a), {}) for a in zip(*[I.iterate(x) for x in xs])]),
     "id": lambda I, x: id(x), "bool": lambda I, x=False: I.truth(x), "repr": lambda I, x: "<repr>",
